@@ -8,6 +8,11 @@ ALL = [f'C{i:02d}' for i in range(1, 21)]
 
 # id -> (level text, level note, technique, design ref)
 CHECKS = {
+    'C17': (
+        'Exhaustive exploration of a bounded configuration space: for each schema of the family every valid accessor chain and every chain invalid in exactly one way, at every nesting site (incl. index expressions, range bounds, set elements, function arguments, quantifier domains and bodies), root (message, alias) and property position, is checked against the real type tokens with the expectation computed by an independent resolver and the error required to name the offender; plus the navigation helpers on every nested message, the predefined integer tokens against the two\'s-complement formula and complete constructor grids (all 128 type sets for TypeToken).',
+        'Resolver and field-tree walk in hplmc/schemas.py are the reference; schemas outside the 6-member family are not explored.',
+        'exhaustive schema x path x nesting-site enumeration against an independent resolver',
+    ),
     'C05': (
         'Bounded-exhaustive fault injection on inputs: for every accepted well-typed term up to the node bound (quick 4, thorough 5; two schemas) every argument position x every wrong-sorted filler of a 15-term menu (one clash per text, confirmed by the reference definite-clash analysis), every reference reused at a type disjoint from the one its position requires (both conjunct orders), and non-boolean predicate roots; each text goes through the expression / predicate / condition / property parsers and must raise TypeError.',
         'Definite clashes only (parameter-type based); transitive clashes through = unification and heterogeneous sets are outside the claim.',
